@@ -27,6 +27,9 @@ def showRes : Except PyErr (List Rat) → String
   | .ok l => "ok " ++ showRatList l
   | .error e => "err " ++ e.show
 
+def showRows (m : List (List Rat)) : String :=
+  if m.isEmpty then "-" else ";".intercalate (m.map showRatList)
+
 def handle : Handler
   | "c03.values", [n, v, d] => some <| Option.getD (do
       some (showRes (getValues (← n.toNat?) (← values? v) (← rat? d)))) "bad-args"
@@ -37,9 +40,17 @@ def handle : Handler
               (← values? v) (← values? vr) (← values? vc) (← rat? d) (← which? w) with
       | .ok r => some s!"ok {showBool r.bipartite} {r.nNodes} {showRatList r.values}"
       | .error e => some ("err " ++ e.show)) "bad-args"
-  | "c03.split", [nr, x] => some <| Option.getD (do
-      let (a, r, c) := splitVars (← nr.toNat?) (← ratList? x)
+  | "c03.split", [bip, nr, x] => some <| Option.getD (do
+      let (a, r, c) := splitVarsClassifier (← bool? bip) (← nr.toNat?) (← ratList? x)
       some s!"ok {showRatList a} {showRatList r} {showRatList c}") "bad-args"
+  | "c03.block", [dir, n, m, ip, ix, dt] => some <| Option.getD (do
+      let c ← csrRat? n m ip ix dt
+      let t := if (← bool? dir) then blockDirTriples c else blockTriples c
+      some s!"ok {showRows (dense (c.nRow + c.nCol) t)}") "bad-args"
+  | "c03.adjacency", [n, m, ip, ix, dt, ad, fb, fd, ae] => some <| Option.getD (do
+      match getAdjacency (← csrRat? n m ip ix dt) (← bool? ad) (← bool? fb) (← bool? fd) (← bool? ae) with
+      | .ok r => some s!"ok {showBool r.bipartite} {r.nNodes} {showRows (dense r.nNodes r.entries)}"
+      | .error e => some ("err " ++ e.show)) "bad-args"
   | _, _ => none
 
 end SkNet.Drive.C03
